@@ -376,5 +376,5 @@ if __name__ == '__main__':
          bound=lambda tier: ({'max_steps': 2, 'roots_len1': len(ROOTS), 'roots_len2': len(QUICK_L2_ROOTS), 'max_shape': '3x3 roots'}
                              if tier == 'quick' else
                              {'max_steps': 3, 'roots_len1': len(ROOTS), 'roots_len2': len(ROOTS),
-                              'roots_len3': len(THOROUGH_L3_ROOTS), 'len3_alphabet': 'core subset'}),
+                              'roots_len3': len(THOROUGH_L3_ROOTS), 'len3_alphabet': 'core subset (23 ops)'}),
          nontrivial=nontrivial)
